@@ -802,8 +802,14 @@ func (a *Analyzer) assumeBin(ctx int, c *ssa.BinOp, truth bool, s *State) {
 		if _, ok := x.(ANil); ok && op == token.NEQ {
 			s.dead = true
 		}
-		if sx, ok := x.(AStr); ok && op == token.EQL { // slice == nil
-			s.addEQ(sx.n)
+		if sx, ok := x.(AStr); ok { // slice == nil / != nil
+			nz := tvar(nzTerm(sx.obj))
+			if op == token.EQL {
+				s.addEQ(sx.n)
+				s.addEQ(nz)
+			} else {
+				s.addEQ(nz.addK(-1))
+			}
 		}
 	}
 }
